@@ -39,6 +39,7 @@ type Case struct {
 	Subset     []int `json:"subset"`      // upstream indices selected by tag through QuickConfigureExec (nil = all, via Exec)
 	CancelAt   int   `json:"cancel_at"`   // cancel the caller's context before the k-th release (-1 = never)
 	Together   bool  `json:"together"`    // release all gates at once instead of one by one
+	WaitNever  bool  `json:"wait_never"`  // also wait until the helpers of never-answering upstreams have ended (5 s each)
 }
 
 func genCase(t *rapid.T) Case {
@@ -61,6 +62,12 @@ func genCase(t *rapid.T) Case {
 		c.CancelAt = rapid.IntRange(0, 3).Draw(t, "cancelAt")
 	}
 	c.Together = rapid.IntRange(0, 5).Draw(t, "together") == 0
+	// waiting for the helper of an upstream that never answers costs the plugin's 5 s per-upstream timeout
+	rare := 599
+	if hx.Thorough() {
+		rare = 79
+	}
+	c.WaitNever = rapid.IntRange(0, rare).Draw(t, "waitNever") == rare/2+1 // (rapid favours the ends of a range)
 	return c
 }
 
@@ -73,6 +80,7 @@ type entry struct {
 	ctx    context.Context
 	retAt  time.Time
 	intact bool
+	ret    chan struct{} // closed when ExchangeContext has evaluated intact and is about to return
 }
 
 type fakeUp struct {
@@ -84,7 +92,8 @@ type fakeUp struct {
 }
 
 func (u *fakeUp) ExchangeContext(ctx context.Context, m []byte) (*[]byte, error) {
-	e := &entry{got: append([]byte(nil), m...), m: m, gate: make(chan struct{}), ctx: ctx}
+	e := &entry{got: append([]byte(nil), m...), m: m, gate: make(chan struct{}), ctx: ctx, ret: make(chan struct{})}
+	defer close(e.ret)
 	u.mu.Lock()
 	u.entries = append(u.entries, e)
 	u.mu.Unlock()
@@ -422,7 +431,7 @@ func runCase(c Case, ctx *hx.Ctx) *hx.Failure {
 			}
 		}
 	}
-	if hx.Thorough() {
+	if c.WaitNever {
 		for _, x := range qs {
 			select {
 			case <-x.e.ctx.Done():
@@ -432,11 +441,11 @@ func runCase(c Case, ctx *hx.Ctx) *hx.Failure {
 		}
 	}
 	for _, x := range qs {
-		if x.up.outcome == "never" && !hx.Thorough() {
+		if x.up.outcome == "never" && !c.WaitNever {
 			continue
 		}
 		select {
-		case <-x.e.ctx.Done():
+		case <-x.e.ret:
 			if !x.e.intact {
 				return hx.Failf("C14/query-buffer-reused", "the query bytes handed to upstream %d changed while it was still running (shared or released buffer)", x.up.idx)
 			}
@@ -458,6 +467,9 @@ func runCase(c Case, ctx *hx.Ctx) *hx.Failure {
 	}
 	if cancelled {
 		ctx.Class("cancelled")
+	}
+	if c.WaitNever {
+		ctx.Class("waited-for-silent-upstream-helpers")
 	}
 	if conc > len(sel) {
 		ctx.Class("conc>len(U)")
